@@ -43,6 +43,13 @@ def gen(r, tier, i):
     for pid in range(n):
         hostile = cls in ('hostile', 'grid_hostile')
         p = {'pid': pid, 'ts': sched.gen_ts(r, 'dyadic' if grid == 'dyadic' else 'decimal', gprec, hostile=hostile)}
+        if hostile and r.random() < 0.1:
+            # a process that asks for an infinite timestep (it only runs when a forced call cuts its interval)
+            import math
+            if p['ts']['kind'] == 'const':
+                p['ts']['v'] = math.inf
+            else:
+                p['ts']['seq'][r.randrange(len(p['ts']['seq']))] = math.inf
         if cls == 'quiet':
             p['cond'] = 'never'
         elif hostile:
